@@ -360,6 +360,11 @@ impl ChannelManager {
               break 'admission Err(narwhal_protocol::Error::new(Forbidden).with_id(correlation_id).into());
             }
 
+            // Only local users can be joined: connections and memberships are tracked by local username.
+            if oh_behalf_nid.domain != router.c2s_router().local_domain() {
+              break 'admission Err(narwhal_protocol::Error::new(NotImplemented).with_id(correlation_id).into());
+            }
+
             if !router.c2s_router().has_connection(&oh_behalf_nid.username) {
               break 'admission Err(narwhal_protocol::Error::new(UserNotRegistered).with_id(correlation_id).into());
             }
